@@ -67,7 +67,7 @@ func runGolden(args []string) int {
 			if !b.OK {
 				msg = "build " + b.Stage + ": " + firstLines(b.Log, 3)
 			} else {
-				r := rx.Run(b.Exe, rx.RunOpts{Stdin: g.Input, Dir: dir})
+				r := rx.RunRobust(b.Exe, rx.RunOpts{Stdin: g.Input, Dir: dir})
 				if got := r.Stdout + r.Stderr; got != g.Expected || r.Exit != 0 {
 					msg = fmt.Sprintf("output differs (exit %d class %s)", r.Exit, r.Class())
 				}
